@@ -18,7 +18,7 @@ from pysym.wire import to_wire, from_wire
 FNAME = 'repodata.json'
 
 
-def build(eng, ns, A=2, B=1, wrong_kinds=True, meta_kinds=True):
+def build(eng, ns, A=2, B=1, wrong_kinds=True, meta_kinds=True, spellings=False):
     t = T(eng, ns=ns)
     arts = []
 
@@ -56,7 +56,8 @@ def build(eng, ns, A=2, B=1, wrong_kinds=True, meta_kinds=True):
     if cons:
         eng.domain(('distinct', ns), z3.And(cons))
     key = t.str('keyhex', 66)
-    content = t.any('content', [('json', 'JSON'), ('notjson', Opaque(bytes, 'notjson', None)), ('missing', None)])
+    # 'jsonnl': the same document in a non-canonical spelling (canonical bytes + a trailing newline, what most tools emit)
+    content = t.any('content', [('json', 'JSON'), ('notjson', Opaque(bytes, 'notjson', None)), ('missing', None)] + ([('jsonnl', 'JSONNL')] if spellings else []))
     return dict(doc=doc, pk=pk, pc=pc, pkv=pkv, pcv=pcv, arts=arts, key=key, content=content, t=t, stale_key=stale_key)
 
 
@@ -70,6 +71,8 @@ def setup_fs(it, tp):
     doc_bytes = canon_of(it, tp['doc'])
     c = tp['content']
     c.alts[0] = ('json', doc_bytes)
+    if len(c.alts) > 3:
+        c.alts[3] = ('jsonnl', SBytes('cat', parts=[doc_bytes, b'\n'], ws_suffix=True))
     fs.files[FNAME] = c
     tp['initial'] = c
     tp['doc_bytes'] = doc_bytes
@@ -113,6 +116,8 @@ def concrete_repodata(case):
         return None
     if case['content'] == 'notjson':
         return b'{not json'
+    if case['content'] == 'jsonnl':
+        return concrete_repodata(dict(case, content='json')) + b'\n'
     doc = from_wire(case['doc'])
     if case.get('stale_is_signer') and isinstance(doc.get('signatures'), dict):
         # the model filed the stale entry under the signer's own public key: use the real one
@@ -130,5 +135,5 @@ def concrete_repodata(case):
 def mk_case(eng, tp, m, fault=None):
     tag = m.eval(tp['content'].tag, model_completion=True).as_long()
     stale_is_signer = bool(z3.is_true(m.eval(tp['stale_key'].eq_sym(tp['pubhex0']), model_completion=True))) if 'pubhex0' in tp else False
-    return dict(scenario='sign_repodata', content=['json', 'notjson', 'missing'][tag], doc=to_wire(conc(m, tp['doc'])), key=conc(m, tp['key']),
+    return dict(scenario='sign_repodata', content=['json', 'notjson', 'missing', 'jsonnl'][tag], doc=to_wire(conc(m, tp['doc'])), key=conc(m, tp['key']),
                 stale_key=conc(m, tp['stale_key']), stale_is_signer=stale_is_signer, fault=fault)
